@@ -62,7 +62,7 @@ struct Scenario {
       else if (op == "chop" && t.size() > 1) { std::istringstream cs(t[1]); std::string x; while (std::getline(cs, x, ',')) s.w.chop.push_back((size_t)std::max(1, atoi(x.c_str()))); }
       else if (op == "partial" && t.size() > 1) { std::istringstream cs(t[1]); std::string x; while (std::getline(cs, x, ',')) s.w.partial.push_back((size_t)std::max(0, atoi(x.c_str()))); }
       else { Action a; a.op = op; a.a.assign(t.begin() + 1, t.end()); actions.push_back(a);
-        if (op == "reinit" || op == "setservers") has_reconfig = true; if (op == "cancel") has_cancel = true; if (op == "inject") has_inject = true; }
+        if (op == "reinit" || op == "setservers") has_reconfig = true; if (op == "cancel") has_cancel = true; if (op == "inject") has_inject = true; if (op == "req") for (auto &x : a.a) if (x.rfind("cb=", 0) == 0 && x.find("cancel") != std::string::npos) has_cancel = true; }
     }
     if (s.server_specs.empty()) s.server_specs.push_back("10.0.0.1");
   }
@@ -97,6 +97,8 @@ struct Scenario {
         int64_t last_valid = -1; for (auto &kv : s.reqs) if (kv.second.calls > 0) for (uint32_t ser : kv.second.serials) for (auto &p : w.provs) if (p.serial == ser && p.genuine && p.server == tx.server && p.carried_server_cookie) last_valid = std::max(last_valid, kv.second.t_end);
         auto lc = last_cookieless.find(tx.server);
         if (last_valid < 0 || (lc != last_cookieless.end() && lc->second >= last_valid)) { s.notes.push_back("inject nocookie: support not proven or regression timer may be running"); return; }
+        // (a genuine reply without a cookie - e.g. FORMERR without OPT - starts the timer just as well)
+        for (auto &d : w.delivered) if (d.serial && d.t >= last_valid) for (auto &p : w.provs) if (p.serial == d.serial && p.server == tx.server && (!p.carried_server_cookie || !p.cookie_valid)) { s.notes.push_back("inject nocookie: regression timer may be running (cookie-less genuine reply)"); return; }
         last_cookieless[tx.server] = w.now_us;
       } }
     else return;
@@ -438,7 +440,10 @@ struct Scenario {
     // instead: "delivered" (read from the socket: an upper bound on what can have taught the client something) and "accepted" (a request completed with that very reply: a
     // lower bound - its cookie was certainly validated and stored).  dev = position of the delivery in the event order.
     std::map<uint32_t, uint64_t> dev; for (auto &d : w.delivered) if (d.serial && !dev.count(d.serial)) dev[d.serial] = d.ev;
-    auto surely = [&](const Prov &p) { return accepted.count(p.serial) && dev.count(p.serial) && p.genuine; };
+    // (replies are processed in the order they are read, but a whole batch may be read before the first one is processed: an accepted reply is certainly stored only once
+    //  its request has completed - proc = that position in the event order)
+    std::map<uint32_t, uint64_t> proc; for (auto &kv : S.reqs) if (kv.second.calls == 1) for (uint32_t ser : kv.second.serials) if (!proc.count(ser) || kv.second.ev_end < proc[ser]) proc[ser] = kv.second.ev_end;
+    auto surely = [&](const Prov &p) { return proc.count(p.serial) && dev.count(p.serial) && p.genuine; };
     for (size_t sv = 0; sv < nserv; sv++) {
       Bytes cur_client; int64_t client_since = 0; Addr cur_src; bool have = false; int64_t last_cause = -1;
       for (auto &t : w.txs) { if (t.server != (int)sv || !t.decodable) continue;
@@ -456,7 +461,7 @@ struct Scenario {
           //  since this client cookie came into use is accepted as a cause - the check is that it is constant while every reply carried a valid cookie)
           for (auto &p : w.provs) if (p.server == (int)sv && delivered_at.count(p.serial) && delivered_at[p.serial] <= t.t && delivered_at[p.serial] >= client_since && (!p.carried_server_cookie || !p.cookie_valid)) cause = true;
           // ... or the regression timer started by an earlier cookie-less reply has run out (no valid cookie reply processed in between to cancel it)
-          for (auto &p : w.provs) if (!cause && p.server == (int)sv && delivered_at.count(p.serial) && t.t - delivered_at[p.serial] >= 120LL * 1000000 && (!p.carried_server_cookie || !p.cookie_valid)) { bool cancelled = false; for (auto &p2 : w.provs) if (p2.server == (int)sv && p2.carried_server_cookie && p2.cookie_valid && surely(p2) && dev[p2.serial] > dev[p.serial] && dev[p2.serial] < t.ev) cancelled = true; if (!cancelled) cause = true; }
+          for (auto &p : w.provs) if (!cause && p.server == (int)sv && delivered_at.count(p.serial) && t.t - delivered_at[p.serial] >= 120LL * 1000000 && (!p.carried_server_cookie || !p.cookie_valid)) { bool cancelled = false; for (auto &p2 : w.provs) if (p2.server == (int)sv && p2.carried_server_cookie && p2.cookie_valid && surely(p2) && dev[p2.serial] > dev[p.serial] && proc[p2.serial] < t.ev) cancelled = true; if (!cancelled) cause = true; }
           if (!cause) fail(r, "C17.client-cookie-changed-without-cause", "server " + std::to_string(sv) + ": client cookie " + vf::hex(cur_client) + " (in use for " + std::to_string((t.t - client_since) / 1000000) + "s) replaced by " + vf::hex(client) + " at transmission #" + std::to_string(t.seq) + " with the same source address");
           else timers++;
         }
@@ -466,7 +471,8 @@ struct Scenario {
         if (!server.empty()) {
           // some delivered reply for this client cookie must have carried it ...
           bool seen = false; const Prov *latest = nullptr; uint64_t le = 0;
-          for (auto &p : w.provs) if (p.server == (int)sv && p.carried_server_cookie && p.client_cookie_echoed == client && dev.count(p.serial) && dev[p.serial] < t.ev) { if (p.server_cookie_sent == server) seen = true; if (p.cookie_valid && surely(p) && dev[p.serial] >= le) { latest = &p; le = dev[p.serial]; } }
+          for (auto &p : w.provs) if (p.server == (int)sv && p.carried_server_cookie && p.client_cookie_echoed == client && dev.count(p.serial) && dev[p.serial] < t.ev) { if (p.server_cookie_sent == server) seen = true; if (p.cookie_valid && surely(p) && proc[p.serial] < t.ev && dev[p.serial] >= le) { latest = &p; le = dev[p.serial]; } }
+          if (getenv("VERIF_DEBUG")) { for (auto &kv : proc) vf::msg("proc[%u]=%llu dev=%llu\n", kv.first, (unsigned long long)kv.second, (unsigned long long)(dev.count(kv.first) ? dev[kv.first] : 0)); vf::msg("tx #%zu ev=%llu latest=%u\n", t.seq, (unsigned long long)t.ev, latest ? latest->serial : 0); }
           if (!seen) fail(r, "C17.server-cookie-from-nowhere", "server " + std::to_string(sv) + " transmission #" + std::to_string(t.seq) + " echoes server cookie " + vf::hex(server) + " that no reply for this client cookie carried");
           else if (latest && latest->server_cookie_sent != server) {
             // ... and it must not be older than one the client certainly stored: stale only when every delivered reply carrying the echoed value came before a reply that was accepted
